@@ -1270,10 +1270,13 @@ def optimize_grid(data, model_func, pts, grid,
         # iteration order in brute(). So we have to iterate back over them
         # to produce the proper order to return.
         thetas = numpy.zeros(fout.shape)
+        # With a single parameter, brute() returns the grid without the leading
+        # parameter axis.
+        grid_nd = grid if grid.ndim > fout.ndim else grid[numpy.newaxis]
         for indices, temp in numpy.ndenumerate(fout):
             # This is awkward, because we need to access grid[:,indices]
             grid_indices = tuple([slice(None,None,None)] + list(indices))
-            thetas[indices] = _theta_store[tuple(grid[grid_indices])]
+            thetas[indices] = _theta_store[tuple(grid_nd[grid_indices])]
     else:
         xopt = outputs
     xopt = _project_params_up(xopt, fixed_params)
